@@ -1294,3 +1294,8 @@ PROOF_MODULES = PROOF_MODULES + ['Compute.Props.C03Support']
 REQUIRED_THEOREMS = REQUIRED_THEOREMS + ['Cv.C03Support.ptrs_support', 'Cv.C03Support.poisson_sample_support', 'Cv.C03Support.ptrs_small_lambda_returns_negative', 'Cv.C03Support.btpe_support', 'Cv.C03Support.binomial_sample_support', 'Cv.C03Support.binomial_flip_total', 'Cv.C03Support.chi_squared_pos', 'Cv.C03Support.chi_squared_zero', 'Cv.C03Support.t_support', 'Cv.C03Support.beta_support', 'Cv.C03Support.zig_strip_nonneg', 'Cv.C03Support.zig_wedge_tail_nonneg', 'Cv.C03Support.zig_out']
 NOT_PROVED = [x for x in NOT_PROVED if not any(k in str(x) for k in ('support of PTRS', 'Support of PTRS'))]
 NOT_PROVED = NOT_PROVED + ['support of the rejection samplers IS proved (Props/C03Support): Poisson draws are naturals for every rate, Binomial draws are naturals <= n for every n and p in [0,1] (BTPE candidates lie in [0,n] by the set-up arithmetic; the flip never underflows), Beta in [0,1]; Ziggurat support is proved per accepting branch, not through the Normal.sample loop (unfolding that definition does not terminate in Lean); chi-squared(1) / t(dof < 2) strict positivity needs the boosting uniform to be non-zero (probability 2^-53 per draw: the draw is then exactly 0)']
+
+# --- source tie (translator pass 4: sample() of the inverse-CDF samplers regenerated from /repo/src into Generated/SrcC03.lean,
+# proved equal to the hand model in Props/SrcTieC03.lean)
+from . import srctie
+srctie.wire(globals(), 'C03')
